@@ -104,9 +104,15 @@ def ids_from_selectors(selectors, coloured):
     return ids
 
 
-def shared_vars(nf):
-    """Custom property names referenced by more than one color/background-color declaration, or by another custom property."""
+def shared_vars(nf, default_bg=None):
+    """Custom property names referenced by more than one color/background-color declaration, by another custom property, or
+    by a declaration and the --default-bg option."""
     refs = {}
+    if default_bg and "var(" in default_bg:
+        import re
+
+        for nm in re.findall(r"var\(\s*(--[^\s,)]+)", default_bg):
+            refs[nm] = refs.get(nm, 0) + 1
     for _, r in osh.style_rules(nf):
         for d in osh.decl_list(r):
             vn = osh.var_name_of(d[2])
@@ -243,14 +249,18 @@ def _judge_file(rel, nf_in, out_css, coloured, cards, listed, mode, premium, dbg
     nf_out = osh.normal(out_css)
     props_in, props_out = osh.custom_properties(nf_in), osh.custom_properties(nf_out)
     col_ids = [rid for rid, _ in coloured]
-    shared = shared_vars(nf_in)
+    shared = shared_vars(nf_in, dbg)
+    import re as _re
+
+    dbg_vars = set(_re.findall(r"var\(\s*(--[^\s,)]+)", dbg)) if dbg and "var(" in dbg else set()
 
     def tag(rule):
         cd = osh.last_decl(rule, "color")
         vn = osh.var_name_of(cd[2]) if cd else None
         bd = osh.last_decl(rule, "background-color")
         bn = osh.var_name_of(bd[2]) if bd else None
-        return ":shared-var" if (vn and vn[0] in shared) or (bn and bn[0] in shared) else ""
+        via_default = bd is None and bool(dbg_vars & shared)  # the rule's background is the option, which references a shared property
+        return ":shared-var" if (vn and vn[0] in shared) or (bn and bn[0] in shared) or via_default else ""
 
     A = ids_from_selectors([c["selector"] for c in cards], coloured)
     F = ids_from_selectors(listed, coloured)
